@@ -15,6 +15,7 @@ const BACK: usize = 64;
 const FRONT_FILL: u8 = 0xFA;
 const BACK_FILL: u8 = 0xFB;
 pub const POISON: u8 = 0xDD;
+pub const FRESH_FILL: u8 = 0xCD;
 
 /// process-wide error count (never reset) and allocation count
 static ERRORS_TOTAL: AtomicUsize = AtomicUsize::new(0);
@@ -75,6 +76,9 @@ unsafe impl GlobalAlloc for CheckAlloc {
         h.add(1).write(layout.size() as u64);
         h.add(2).write(layout.align() as u64);
         let user = base.add(front);
+        // fresh memory is junk, deterministically: a read of never-written bytes shows up as a
+        // wrong result or an out-of-range index instead of depending on what the heap held
+        std::ptr::write_bytes(user, FRESH_FILL, layout.size());
         std::ptr::write_bytes(user.add(layout.size()), BACK_FILL, BACK);
         TOTAL_ALLOCS.fetch_add(1, Ordering::Relaxed);
         let _ = LIVE_BYTES.try_with(|c| {
